@@ -5,6 +5,7 @@
 -/
 import PicoSVG.Model.ViewBox
 import PicoSVG.Proofs.Affine
+import PicoSVG.Props.C03
 import Mathlib.Tactic.SplitIfs
 
 set_option linter.unusedSectionVars false
@@ -262,4 +263,39 @@ theorem clip_decision_exact (vb bbox : Rect α) (S : Pt α → Prop) (hS : ∀ p
     exact this.1
 
 end
+open PicoSVG.Spec PicoSVG.PathOps in
+section
+variable {α : Type} [Field α] [LinearOrder α] [IsStrictOrderedRing α] {P : Type}
+
+/-- C19 (the clipped geometry): for a shape that `clip_to_viewbox` cuts, the path Skia returns for
+    `intersection((shape, rect(bbox ∩ viewBox)))` covers — relative to the engine specification, at generic points — exactly
+    the shape's points inside the viewBox: the shortcut through the bounding box loses nothing and keeps nothing extra. -/
+theorem clip_region_exact (E : Engine P α) (interior : P → Region α) (iAs : FillRule → P → Region α)
+    (G : Pt α → Prop) (S : EngineSpec E interior iAs G)
+    (vb bbox r : Rect α) (hdec : clipDecision vb bbox = .clip r)
+    (shape rect : List (Cmd α)) (rule : FillRule) (res : P)
+    (h : doPathopP E .intersection [shape, rect] [rule, .nonzero] = .ok (some res)) :
+    ∃ b0 b1, E.ofCmds shape rule = .ok b0 ∧ E.ofCmds rect .nonzero = .ok b1 ∧
+      ((∀ p, interior b0 p → inInterior bbox p) → (∀ p, interior b1 p ↔ inInterior r p) →
+        ∀ p, G p → (interior res p ↔ interior b0 p ∧ inInterior vb p)) := by
+  obtain ⟨b0, bs, hb0, hbuilt, hint⟩ := Props.C03.clipped_geometry E interior iAs G S shape [rect] rule [.nonzero] res h
+  -- the one clip operand
+  cases hbuilt with
+  | cons hb1 hrest =>
+    cases hrest
+    rename_i b1
+    refine ⟨b0, b1, hb0, hb1, ?_⟩
+    intro hS hR p hp
+    have h1 := (hint p hp).1
+    rw [h1]
+    have hex := (clip_decision_exact vb bbox (interior b0) hS).2.1 r hdec p
+    constructor
+    · rintro ⟨hs, hall⟩
+      have hb : interior b1 p := hall b1 (List.mem_singleton.mpr rfl)
+      exact hex.mp ⟨hs, (hR p).mp hb⟩
+    · rintro ⟨hs, hv⟩
+      obtain ⟨_, hin⟩ := hex.mpr ⟨hs, hv⟩
+      exact ⟨hs, fun b hb => by rw [List.mem_singleton.mp hb]; exact (hR p).mpr hin⟩
+end
+
 end PicoSVG.C19
